@@ -140,6 +140,29 @@ def virt4(r01: bool, r02: bool, r03: bool, r10: bool, r12: bool, r13: bool, r20:
     return got in ok or fail(why='not a nearest registered type', got=got, acceptable=ok, regd=regd, t=t, rel=rel)
 
 
+def virt4r(r01: bool, r02: bool, r03: bool, r10: bool, r12: bool, r13: bool, r20: bool, r21: bool, r23: bool,
+           r30: bool, r31: bool, r32: bool, a: int, b: int, c: int, d: int, t: int) -> bool:
+    """4 virtual types, FOUR registration events a, b, c, d (repetition = re-registration allowed, all non-exact), then a
+    lookup: still a nearest registered type"""
+    start()
+    rel = [[True, r01, r02, r03], [r10, True, r12, r13], [r20, r21, True, r23], [r30, r31, r32, True]]
+    if not _partial_order(rel, 4):
+        return True
+    _REL[0] = rel
+    reg = TargetRegistry(register_default_types=False)
+    regd = []
+    for ty in (a, b, c, d):
+        reg.register(V[ty], get=HANDLERS[ty])
+        if not any(r == ty for r, _ in regd):
+            regd.append((ty, False))
+    got = _lookup(reg, t)
+    ok = _acceptable(rel, regd, t)
+    reach('virt4r')
+    if len(set((a, b, c, d))) < 4:
+        reach('reregistered')
+    return got in ok or fail(why='not a nearest registered type after re-registration', got=got, acceptable=ok, events=(a, b, c, d), t=t, rel=rel)
+
+
 # ---- concrete class families, observed through the public API ---------------------------------------
 def _families():
     class A:
@@ -354,6 +377,14 @@ def obligations(tier):
             for b in range(4):
                 if a != b:
                     obs.append(Ob(virt4, fixed={'a': a, 'b': b}, pre='0 <= t <= 3', name='virt4_%d%d' % (a, b), timeout=600))
+    # re-registration histories on 4 types (the lookup type is never registered itself: t = 3, events over 0..2)
+    import itertools
+    if q:
+        pats = [(x, y, z, w) for x, y, z in itertools.permutations(range(3)) for w in (x, y, z)]
+    else:
+        pats = list(itertools.product(range(3), repeat=4))
+    for (a, b, c, d) in pats:
+        obs.append(Ob(virt4r, fixed={'a': a, 'b': b, 'c': c, 'd': d, 't': 3}, name='virt4r_%d%d%d%d' % (a, b, c, d), timeout=300))
     for fam in range(len(FAMS)):
         for flavour in range(3):
             for op in range(4):
@@ -368,4 +399,5 @@ def obligations(tier):
     obs.append(Ob(virt3, fixed={'nreg': 2, 'a': 0, 'b': 1, 'c': 2, 'ec': False, 'probe_between': True}, twin='unreg', name='virt3_n2'))
     obs.append(Ob(real_family, fixed={'fam': 0, 'flavour': 0, 'op': 0}, pre='0 <= i0 <= 3 and 0 <= i1 <= 3 and 1 <= nreg <= 2', twin='real_ancestor', name='real_family_chain'))
     obs.append(Ob(real_family, fixed={'fam': 0, 'flavour': 0, 'op': 0}, pre='0 <= i0 <= 3 and 0 <= i1 <= 3 and 1 <= nreg <= 2', twin='real_unreg', name='real_family_chain'))
+    obs.append(Ob(virt4r, fixed={'a': 0, 'b': 1, 'c': 2, 'd': 0, 't': 3}, twin='reregistered', name='virt4r_0120'))
     return obs
